@@ -147,12 +147,49 @@ func hostile(g *Gen, v *Val, enc []byte) [][]byte {
 	var spans []Span
 	sizeOfMsg(v, 0, &spans)
 	var out [][]byte
-	for _, s := range spans {
+	// a self-measuring frame's own length field is a claimed length too (a decoder that trusts it carves, skips or
+	// allocates by it): hostile values there are followed by the WHOLE rest of the frame as well
+	frameLen := -1
+	if t := schema.Types[v.Ty]; t.Frame != nil {
+		off := 0
+		for _, h := range t.Frame.Hdr {
+			off += h.W
+		}
+		spans = append(spans, Span{off, t.Frame.LenW, t.Frame.E, "len"})
+		frameLen = len(spans) - 1
+	}
+	if t := schema.Types[v.Ty]; t.Frame != nil && frameLen >= 0 && t.Frame.Key < len(t.Frame.Hdr) {
+		// … and so it is when the message type is NOT registered (a decoder that skips the unknown body by its claimed size)
+		ls := spans[frameLen]
+		koff := 0
+		for _, h := range t.Frame.Hdr[:t.Frame.Key] {
+			koff += h.W
+		}
+		kw := t.Frame.Hdr[t.Frame.Key].W
+		if ls.Off+ls.W <= len(enc) && koff+kw <= len(enc) {
+			for _, val := range []uint64{^uint64(0), 0x7FFFFFFF, 0x80000000, 0x04000000, 0xFFF0} {
+				for _, follow := range []int{0, 3, len(enc)} {
+					d := append([]byte{}, enc[:min(len(enc), ls.Off+ls.W+follow)]...)
+					putUint(d[koff:], t.Frame.Hdr[t.Frame.Key].E, 0xFFFFFFFE&maxOf(kw))
+					putUint(d[ls.Off:], ls.E, val)
+					out = append(out, d)
+				}
+			}
+		}
+	}
+	for si, s := range spans {
 		if s.Off+s.W > len(enc) {
 			continue
 		}
-		for _, val := range []uint64{^uint64(0), 0x7FFFFFFF, 0x04000000, 0xFFF0, 0x8000} {
-			for _, follow := range []int{0, 1, 3, 40} {
+		vals := []uint64{^uint64(0), 0x7FFFFFFF, 0x04000000, 0xFFF0, 0x8000}
+		follows := []int{0, 1, 3, 40}
+		if si == frameLen {
+			cur := getUint(enc[s.Off:s.Off+s.W], s.E)
+			vals = append(vals, 0x80000000, 0xFF000000|(cur&0xFFFF), 0x80000000|cur, cur+1, cur-1, cur+4, 0)
+			follows = append(follows, len(enc))
+		}
+		for _, val := range vals {
+			for _, follow := range follows {
 				d := append([]byte{}, enc[:s.Off+s.W]...)
 				putUint(d[s.Off:], s.E, val)
 				end := s.Off + s.W + follow
